@@ -113,6 +113,56 @@ class Catalogue:
                 self.quantities.append({"name": q, "header": "PhQ/%s" % fn, "shape": shape,
                                         "unit": unit if kind == "Dimensional" else None})
 
+    MACRO_FLAGS = {"__AVX__": "-mavx", "__AVX2__": "-mavx2", "__AVX512F__": "-mavx512f", "__FMA__": "-mfma", "__SSE3__": "-msse3",
+                   "__SSSE3__": "-mssse3", "__SSE4_1__": "-msse4.1", "__SSE4_2__": "-msse4.2", "__BMI__": "-mbmi", "__BMI2__": "-mbmi2",
+                   "__F16C__": "-mf16c", "__POPCNT__": "-mpopcnt", "__LZCNT__": "-mlzcnt", "NDEBUG": "-DNDEBUG", "__FAST_MATH__": "-ffast-math",
+                   "__OPTIMIZE__": "-O1", "_GLIBCXX_ASSERTIONS": "-D_GLIBCXX_ASSERTIONS", "_OPENMP": "-fopenmp", "__NO_MATH_ERRNO__": "-fno-math-errno",
+                   "__FINITE_MATH_ONLY__": "-ffinite-math-only"}
+    CPU_FLAGS = {"-mavx": "avx", "-mavx2": "avx2", "-mavx512f": "avx512f", "-mfma": "fma", "-msse3": "pni", "-mssse3": "ssse3", "-msse4.1": "sse4_1",
+                 "-msse4.2": "sse4_2", "-mbmi": "bmi1", "-mbmi2": "bmi2", "-mf16c": "f16c", "-mpopcnt": "popcnt", "-mlzcnt": "abm"}
+
+    def conditional_build_flags(self):
+        """Every preprocessor conditional in the library's headers is a configuration dimension: returns the compiler flags
+        that switch the conditionally compiled code ON (include guards excluded; CPU-feature flags only if this CPU has the
+        feature), plus the macros that could not be mapped.  Empty on the pinned tree, which has no conditionals."""
+        macros = set()
+        for root, ds, fs in os.walk(PHQ):
+            for f in fs:
+                if not f.endswith(".hpp"):
+                    continue
+                with open(os.path.join(root, f), encoding="utf-8") as fh:
+                    for line in fh:
+                        m = re.match(r"^\s*#\s*(if|ifdef|ifndef|elif)\b(.*)$", line)
+                        if not m:
+                            continue
+                        for tok in re.findall(r"[A-Za-z_]\w*", m.group(2)):
+                            if tok in ("defined", "if", "ifdef", "ifndef", "elif") or re.match(r"^PHQ_\w*HPP$", tok) or tok.endswith("_HPP"):
+                                continue
+                            macros.add(tok)
+        try:
+            cpu = set(open("/proc/cpuinfo").read().split())
+        except OSError:
+            cpu = set()
+        flags, unmapped, cxx20, clang = [], [], False, False
+        for mname in sorted(macros):
+            if mname in self.MACRO_FLAGS:
+                fl = self.MACRO_FLAGS[mname]
+                if fl in self.CPU_FLAGS and self.CPU_FLAGS[fl] not in cpu:
+                    unmapped.append(mname + " (CPU lacks it)")
+                elif fl not in flags:
+                    flags.append(fl)
+            elif mname.startswith("__cpp_") or mname == "__cplusplus":
+                cxx20 = True
+            elif mname in ("__clang__", "__clang_major__"):
+                clang = True
+            elif mname in ("__GNUC__", "__GNUG__", "__GNUC_MINOR__", "__has_include", "__has_builtin", "__has_cpp_attribute", "__has_attribute", "__x86_64__", "__linux__"):
+                continue
+            elif re.match(r"^[A-Z][A-Z0-9_]+$", mname):
+                flags.append("-D%s=1" % mname)     # a library-specific switch: turn it on
+            else:
+                unmapped.append(mname)
+        return {"flags": flags, "cxx20": cxx20, "clang": clang, "unmapped": unmapped, "macros": sorted(macros)}
+
     def interesting_integers(self):
         """integer literals that appear in the library's code (block sizes, capacities, thresholds): container and
         string sizes are also drawn right at and around them -- boundaries come from the code, not from us"""
